@@ -215,7 +215,7 @@ pub fn generate(rng: &mut Rng, tier: Tier) -> Scenario {
                 Tier::Thorough => rng.range(66_000, 400_000),
             } as u64;
             let fault = if rng.chance(0.4) { Some(*rng.pick(&world::VALUE_FAULTS)) } else { None };
-            ops.push(Op::Gen { n: 0, g: World::random_desc(rng), skip: 0, len, fault, every: if fault.is_some() { rng.range(2, 3000) as u64 } else { 0 }, reset_every: 0 });
+            ops.push(Op::Gen { n: 0, g: World::random_desc(rng), skip: 0, len, fault, every: if fault.is_some() { rng.range(2, 3000) as u64 } else { 0 }, reset_every: 0, clone_every: 0 });
         }
         let mut fed = 0;
         while fed < hlen {
@@ -396,7 +396,7 @@ pub fn run(tier: Tier) -> i32 {
     let start = Instant::now();
     let mut total = Stats::default();
     let (depth, seeded_runs) = match tier {
-        Tier::Quick => (5u32, 3_000_000u64),
+        Tier::Quick => (4u32, 3_000_000u64),
         Tier::Thorough => (6u32, 50_000_000u64),
     };
     let wall_cap = match tier {
